@@ -111,6 +111,9 @@ def run(ck):
                         seqs = [q + (inner,) for q in seqs]
                     elif some is None:
                         seqs = [q + (inner,) for q in seqs] + seqs
+                elif c[1] and c[1][0] == "satisfy" and c[1][1] and len(c[1][1]) <= 4:
+                    # a one-byte recogniser over a small class is the alternation of the tags of its bytes
+                    seqs = [q + (tok((c[0], ("tag", b))),) for q in seqs for b in sorted(c[1][1])]
                 else:
                     seqs = [q + (t,) for q in seqs]
             mine = {norm(q) for q in seqs}
@@ -122,7 +125,7 @@ def run(ck):
         missing = spec - impl
         ck.judge(not missing, "C11-P", "parse:skeleton-complete", "all %d grammar alternatives are accepted" % len(spec),
                  "grammar alternatives that no accepting path consumes (white space no longer optional there, or an alternative was removed): %s" % [" ".join(q) for q in sorted(missing)][:6])
-        ck.floor("C11-P", "Ok exits of parse", n, 8)
+        ck.floor("C11-P", "Ok exits of parse", n, 2)
     peeks = sk.direct_inspections()
     ck.judge(not peeks, "C11-P", "parser:no-direct-inspection", "input is examined only through parser applications (the skeleton is exact)",
              "input bytes are inspected directly, outside the parser combinators, so where white space / terminators are accepted no longer follows the grammar skeleton: %s"
